@@ -29,7 +29,11 @@
 (*               initial = reactants (products when rev),                  *)
 (*               final   = transition state when act, else the other side; *)
 (*   Antisymmetry, ActDifference, DetailedBalance, KeqActRatio,            *)
-(*   RouteIsolation, CallerUntouched.                                      *)
+(*   RouteIsolation, CallerUntouched;                                      *)
+(*   ActWithoutTSRefused: a reaction without a transition state has no     *)
+(*               "transition state minus reactants": every getter called   *)
+(*               with act = True refuses (raises); and whatever a getter   *)
+(*               returns must still obey ActDifference / KeqActRatio.      *)
 (* IMPLEMENTATION-SHAPED: ImplRoute is _get_specie_kwargs (copy, drop      *)
 (* every block key, merge the block whose key equals "<name>_kwargs");     *)
 (* ImplState is the zip/accumulate loop of get_state_quantity; ImplStates  *)
@@ -39,7 +43,11 @@
 (*                  dictionary instead of a copy,                          *)
 (*        "prefix"  a block is matched when its name is a prefix of the    *)
 (*                  species name (H2_kwargs reaching H2O),                 *)
-(*        "actswap" _get_states ignores rev when act is set.               *)
+(*        "actswap" _get_states ignores rev when act is set,               *)
+(*        "actfallback" act = True on a reaction WITHOUT a transition      *)
+(*                  state silently evaluates the plain reaction change     *)
+(*                  instead of refusing (a subclass override doing         *)
+(*                  `act = act and self.transition_state is not None`).    *)
 (***************************************************************************)
 EXTENDS Integers, Sequences, FiniteSets, TLC
 
@@ -47,7 +55,7 @@ CONSTANTS Rxns,       \* reactions [r |-> side, p |-> side, t |-> side]; side = 
           KwParts,    \* caller dictionaries as [glob |-> f, blocks |-> g] (see Kw)
           ProbeNames, \* names whose routing is examined in addition to the reaction's species
           ProbeBlocks,\* block contents used by RouteIsolation
-          Variant,    \* "asbuilt" | "alias" | "prefix" | "actswap"
+          Variant,    \* "asbuilt" | "alias" | "prefix" | "actswap" | "actfallback"
           MaxCalls
 
 VARIABLES rxn, callerKw, last, ncalls, phase
@@ -126,23 +134,35 @@ ImplDelta(rx, kw, rev, act) ==
    LSub(ImplState(SideOf(rx, ImplStates(rev, act).final), kw), ImplState(SideOf(rx, ImplStates(rev, act).init), kw))
 
 \* ---- public calls --------------------------------------------------------
+\* every getter can be called on every reaction, also with act = TRUE when there is no transition state
 Calls(rx) ==
-   {[fn |-> "state", side |-> s, rev |-> FALSE, act |-> FALSE] : s \in (IF HasTS(rx) THEN {"r", "p", "t"} ELSE {"r", "p"})}
-   \cup {[fn |-> f, side |-> "-", rev |-> rv, act |-> a] :
-            f \in {"delta", "keq"}, rv \in BOOLEAN, a \in (IF HasTS(rx) THEN BOOLEAN ELSE {FALSE})}
-   \cup (IF HasTS(rx) THEN {[fn |-> "act", side |-> "-", rev |-> rv, act |-> TRUE] : rv \in BOOLEAN} ELSE {})
+   {[fn |-> "state", side |-> s, rev |-> FALSE, act |-> FALSE] : s \in {"r", "p", "t"}}
+   \cup {[fn |-> f, side |-> "-", rev |-> rv, act |-> a] : f \in {"delta", "keq"}, rv \in BOOLEAN, a \in BOOLEAN}
+   \cup {[fn |-> "act", side |-> "-", rev |-> rv, act |-> TRUE] : rv \in BOOLEAN}
+
+\* the outcome "the call raised" as a value of the same shape as a combination
+Refused == [x \in {<<(<<"!">>), EmptyFn>>} |-> 1]
+NeedsTS(c) == (c.fn = "state" /\ c.side = "t") \/ (c.fn \in {"delta", "act", "keq"} /\ c.act)
+
+\* transition_state is None: zip(None, None) raises inside get_state_quantity
+ImplDeltaR(rx, kw, rev, act) ==
+   IF act /\ ~HasTS(rx)
+   THEN (IF Variant = "actfallback" THEN ImplDelta(rx, kw, rev, FALSE) ELSE Refused)
+   ELSE ImplDelta(rx, kw, rev, act)
+NegR(l) == IF l = Refused THEN Refused ELSE LNeg(l)
 
 \* result of a call as a combination (keq: the exponent of exp, i.e. -delta G)
 ImplResult(rx, kw, c) ==
-   CASE c.fn = "state" -> ImplState(SideOf(rx, c.side), kw)
-     [] c.fn = "delta" -> ImplDelta(rx, kw, c.rev, c.act)
-     [] c.fn = "act"   -> ImplDelta(rx, kw, c.rev, TRUE)
-     [] c.fn = "keq"   -> LNeg(ImplDelta(rx, kw, c.rev, c.act))
+   CASE c.fn = "state" -> IF c.side = "t" /\ ~HasTS(rx) THEN Refused ELSE ImplState(SideOf(rx, c.side), kw)
+     [] c.fn = "delta" -> ImplDeltaR(rx, kw, c.rev, c.act)
+     [] c.fn = "act"   -> ImplDeltaR(rx, kw, c.rev, TRUE)
+     [] c.fn = "keq"   -> NegR(ImplDeltaR(rx, kw, c.rev, c.act))
 ReqResult(rx, kw, c) ==
-   CASE c.fn = "state" -> ReqState(SideOf(rx, c.side), kw)
-     [] c.fn = "delta" -> ReqDelta(rx, kw, c.rev, c.act)
-     [] c.fn = "act"   -> ReqDelta(rx, kw, c.rev, TRUE)
-     [] c.fn = "keq"   -> LNeg(ReqDelta(rx, kw, c.rev, c.act))
+   IF NeedsTS(c) /\ ~HasTS(rx) THEN Refused
+   ELSE CASE c.fn = "state" -> ReqState(SideOf(rx, c.side), kw)
+          [] c.fn = "delta" -> ReqDelta(rx, kw, c.rev, c.act)
+          [] c.fn = "act"   -> ReqDelta(rx, kw, c.rev, TRUE)
+          [] c.fn = "keq"   -> LNeg(ReqDelta(rx, kw, c.rev, c.act))
 
 NoCall == [fn |-> "none", side |-> "-", rev |-> FALSE, act |-> FALSE]
 
@@ -182,10 +202,17 @@ Dlt(rev, act) == ImplDelta(rxn, callerKw, rev, act)
 \* reversing the direction flips the sign of the change
 Antisymmetry == Fresh => Dlt(TRUE, FALSE) = LNeg(Dlt(FALSE, FALSE))
 \* forward minus reverse activation quantity = reaction change (q_act_f / q_act_r = q_f)
-ActDifference == (Fresh /\ HasTS(rxn)) => LSub(Dlt(FALSE, TRUE), Dlt(TRUE, TRUE)) = Dlt(FALSE, FALSE)
+\* stated on whatever the getters RETURN: a refusal satisfies it, a fallback value does not
+DltR(rev, act) == ImplDeltaR(rxn, callerKw, rev, act)
+Returned(rev) == DltR(rev, TRUE) # Refused
+ActDifference == (Fresh /\ Returned(FALSE) /\ Returned(TRUE)) =>
+                    LSub(DltR(FALSE, TRUE), DltR(TRUE, TRUE)) = Dlt(FALSE, FALSE)
 \* K = exp(-delta G): K_f K_r = exp(0); K_act_f / K_act_r = K_f
 DetailedBalance == Fresh => LAdd(LNeg(Dlt(FALSE, FALSE)), LNeg(Dlt(TRUE, FALSE))) = ZeroLin
-KeqActRatio == (Fresh /\ HasTS(rxn)) => LSub(LNeg(Dlt(FALSE, TRUE)), LNeg(Dlt(TRUE, TRUE))) = LNeg(Dlt(FALSE, FALSE))
+KeqActRatio == (Fresh /\ Returned(FALSE) /\ Returned(TRUE)) =>
+                  LSub(LNeg(DltR(FALSE, TRUE)), LNeg(DltR(TRUE, TRUE))) = LNeg(Dlt(FALSE, FALSE))
+\* no transition state: every getter that needs one refuses
+ActWithoutTSRefused == (last.call.fn # "none" /\ NeedsTS(last.call) /\ ~HasTS(rxn)) => last.res = Refused
 \* a change is the stoichiometry-weighted sum over the final minus the initial side (Hess)
 Hess == Fresh => \A rv \in BOOLEAN, a \in (IF HasTS(rxn) THEN BOOLEAN ELSE {FALSE}) :
            Dlt(rv, a) = ReqDelta(rxn, callerKw, rv, a)
